@@ -19,6 +19,8 @@
                                   MS: N
   * `adpcm_geometry`             what `wav_open` / `w64_open` / `aiff_open` + `*_init` derive for 1–2 channels and ANY sample rate
                                   (incl. the products that wrap a C int) is a legal geometry
+  * `adpcm_written_stream`       what a re-open reads = the decoders of SfModel/Adpcm.lean on the encoders' blocks; with
+                                  `adpcm_written_stream_partition`: C06's stream of a library-written file is a function of the shorts
   * `adpcm_refused_seek_clean`   a refused sf_seek on a writing handle changes nothing (`adpcm_refused_seek_old_rule`: the rule
                                   before the repair of KF-IMA-WAV-SEEK-WRITE), `adpcm_write_seek_results`
   * encoder invariants (for EVERY input): `ima_step_in_range` (code < 16, predictor a short, step index in 0…88),
@@ -431,5 +433,53 @@ theorem adpcm_write_seek_results (g : Geo) (off : Nat) :
 
 example : seekWrite (geoOf .imaWav 44100 2) 0 = ⟨none, false, false⟩ ∧ seekWriteOld (geoOf .imaWav 44100 2) 0 = ⟨none, true, false⟩ ∧
     seekWrite (geoOf .ms 44100 2) 0 = ⟨some 0, true, true⟩ ∧ seekWrite (geoOf .ms 44100 2) 7 = ⟨none, false, false⟩ := by decide
+
+/-! ## what a re-open reads: the decoders of SfModel/Adpcm.lean run on the encoders' blocks -/
+
+/-- the blocks of a closed session in file order -/
+def closedBlocks (g : Geo) (cv : Conv) (calls : List (Ty × List Int)) : List (List Byte) := (closeSt g (session g cv calls)).out.reverse
+
+/-- **the stream of a library-written file**: the reader of SfModel/AdpcmReader.lean (the model behind C06's `block_reader_refines_stream`,
+    `partition_invariance_block`, `seek_then_read_block`) opened over the closed data region finds ⌈N / samplesperblock⌉ blocks,
+    reports that many blocks' worth of frames — the value `framesAtOpen` computes from the length — and its block k is the
+    DECODER (`imaWavDecodeBlock` / `imaAiffDecodeBlock` / `msDecodeBlock`, proved equal to the reference decoders in
+    SfProps/C20Adpcm.lean) run on the k-th block the ENCODER emitted -/
+theorem adpcm_written_stream (g : Geo) (hg : WGeo g) (cv : Conv) (calls : List (Ty × List Int)) (hw : Whole g calls) :
+    (closedBlocks g cv calls).length = (nframes g cv calls + (g.spb - 1)) / g.spb ∧
+    (readerOf g (closedBytes g cv calls)).frames = framesAtOpen g (closedBytes g cv calls).length ∧
+    ∀ k, k < (closedBlocks g cv calls).length →
+      (readerOf g (closedBytes g cv calls)).src k = fixLen (g.spb * g.ch) (decOf g ((closedBlocks g cv calls).getD k [])) := by
+  obtain ⟨h1, h2⟩ := closeSt_blocks g hg _ _ (adpcm_session_state g hg cv calls hw)
+  obtain ⟨hspb, hch, _, hba⟩ := wgeo_pos g hg
+  have hbb : 0 < g.blockBytes := by
+    unfold Geo.blockBytes
+    split
+    · exact Nat.mul_pos hch hba
+    · exact hba
+  have hall : ∀ b ∈ closedBlocks g cv calls, b.length = g.blockBytes := fun b hb => h2 b (List.mem_reverse.mp hb)
+  have hlen : (closedBlocks g cv calls).length = (nframes g cv calls + (g.spb - 1)) / g.spb := by
+    unfold closedBlocks; rw [List.length_reverse, h1]
+  obtain ⟨r1, r2⟩ := adpcmReader_blocks (decOf g) g.ch g.blockBytes g.spb hbb (closedBlocks g cv calls) hall
+  have e : closedBytes g cv calls = (closedBlocks g cv calls).flatten := rfl
+  refine ⟨hlen, ?_, ?_⟩
+  · rw [(adpcm_frames_at_reopen g hg cv calls hw).2.2, e]
+    unfold readerOf
+    rw [r1, hlen, Nat.mul_comm]
+  · intro k hk
+    rw [e]
+    exact r2 k hk
+
+/-- … so the decoded stream of a library-written file is a function of the concatenated converted shorts: two sessions with
+    the same shorts give the same reader (same frame count, same blocks), whatever the calls were -/
+theorem adpcm_written_stream_partition (g : Geo) (hg : WGeo g) (cv : Conv) (calls1 calls2 : List (Ty × List Int))
+    (hw1 : Whole g calls1) (hw2 : Whole g calls2) (h : shorts cv calls1 = shorts cv calls2) :
+    readerOf g (closedBytes g cv calls1) = readerOf g (closedBytes g cv calls2) := by
+  rw [adpcm_write_partition g hg cv calls1 calls2 hw1 hw2 h]
+
+/-- non-vacuity: 3 mono frames of MS ADPCM at 8000 Hz: one 256-byte block; the re-open stream starts with the two header
+    samples verbatim and has 500 frames -/
+example : (readerOf (geoOf .ms 8000 1) (closedBytes (geoOf .ms 8000 1) {} [(.s16, [1000, -2000, 3000])])).frames = 500 ∧
+    ((readerOf (geoOf .ms 8000 1) (closedBytes (geoOf .ms 8000 1) {} [(.s16, [1000, -2000, 3000])])).src 0).take 2 = [1000, -2000] := by
+  decide +kernel
 
 end Sf.C07Adpcm
